@@ -80,7 +80,9 @@ type scenario struct {
 	// "audio-first" = audio listed before video, "three" = video, audio and an
 	// application/metadata section the pull has to leave alone.
 	SDPShape string `json:"sdp_shape"`
-	Remap    bool   `json:"remap"` // the camera grants other interleaved pairs than asked (outside the pull client's domain: counted, outcome open)
+	Base     string `json:"base"`    // fakecam.Script.ContentBase: which base headers the DESCRIBE answer carries
+	Control  string `json:"control"` // fakecam.Script.ControlForm: how a=control values are advertised
+	Remap    bool   `json:"remap"`   // the camera grants other interleaved pairs than asked (outside the pull client's domain: counted, outcome open)
 
 	frames []fakecam.Frame // generated programme; nil = fakecam.SimpleFrames
 }
@@ -94,6 +96,9 @@ func (sc *scenario) key() string {
 	}
 	if sc.URLShape != "" {
 		fmt.Fprintf(&b, "url=%s ", sc.URLShape)
+	}
+	if sc.Base != "" || sc.Control != "" {
+		fmt.Fprintf(&b, "content-base=%s control=%s ", sc.Base, sc.Control)
 	}
 	if sc.SDPShape != "" || sc.Remap {
 		fmt.Fprintf(&b, "sdp=%s remap=%v ", sc.SDPShape, sc.Remap)
@@ -486,7 +491,7 @@ func userinfoFor(sc *scenario) (info string, camPass string, md5 bool) {
 }
 
 func okScript(audio bool, frames []fakecam.Frame, initial int) fakecam.Script {
-	return fakecam.Script{SDP: mediah.SDP(esgen.H264, audio), Frames: frames, Initial: initial, User: "u", Pass: "p"}
+	return fakecam.Script{SDP: mediah.SDP(esgen.H264, audio), Frames: frames, Initial: initial, User: "u", Pass: "p", StrictSetup: true}
 }
 
 // runScenario executes one scenario and returns every oracle failure (empty =
@@ -525,6 +530,7 @@ func runScenario(sc *scenario, rq requester) *result {
 	}
 	frames := framesFor(sc)
 	script := fakecam.Script{Steps: sc.Steps, User: sc.User, Pass: camPass, PassIsMD5: md5, SDP: sc.sdp(), RemapChannels: sc.Remap,
+		StrictSetup: true, ContentBase: sc.Base, ControlForm: sc.Control,
 		Frames: frames, Initial: sc.Initial, SessionTimeout: sc.SessionTimeout,
 		GluePlay: sc.GluePlay, GlueKeepAlive: sc.GlueKA, KeepAliveGlues: sc.KAGlues,
 		OnPlay: func() { config.VerifTimeouts(playTimeout, heartbeat) }}
@@ -1032,7 +1038,7 @@ func sequential(sc *scenario, n int) *result {
 	base := takeBaseline()
 	info, camPass, md5 := userinfoFor(sc)
 	frames := framesFor(sc)
-	script := fakecam.Script{Steps: sc.Steps, User: sc.User, Pass: camPass, PassIsMD5: md5, SDP: mediah.SDP(esgen.H264, sc.Audio), Frames: frames, Initial: sc.Initial}
+	script := fakecam.Script{Steps: sc.Steps, User: sc.User, Pass: camPass, PassIsMD5: md5, SDP: mediah.SDP(esgen.H264, sc.Audio), Frames: frames, Initial: sc.Initial, StrictSetup: true}
 	cam, err := fakecam.Start(script)
 	if err != nil {
 		res.failf("harness", "camera did not start: %v", err)
@@ -1098,7 +1104,7 @@ func concurrent(cc *concurrentCase) *concurrentResult {
 		sc.Steps[fakecam.Describe] = fakecam.Behaviour{Kind: fakecam.Digest401, N: 1}
 	}
 	frames := fakecam.SimpleFrames(4000, cc.Audio)
-	cam, err := fakecam.Start(fakecam.Script{Steps: sc.Steps, User: sc.User, Pass: sc.Pass, SDP: mediah.SDP(esgen.H264, cc.Audio), Frames: frames, Initial: 2})
+	cam, err := fakecam.Start(fakecam.Script{Steps: sc.Steps, User: sc.User, Pass: sc.Pass, SDP: mediah.SDP(esgen.H264, cc.Audio), Frames: frames, Initial: 2, StrictSetup: true})
 	if err != nil {
 		res.failf("harness", "camera did not start: %v", err)
 		return res
